@@ -58,10 +58,12 @@ PickPow(k, w, sg) ==
   /\ Emit([k |-> "enc", neg |-> num'.neg, mag |-> num'.mag, enc |-> b'])
 
 NextBytes == IF Len(b) < FullLen THEN Byte ELSE AlphaA \cup AlphaB
-Next == \/ kind \in {"root", "bytes"} /\ \E x \in NextBytes : PrependByte(x)
-        \/ kind = "root" /\ \E i \in 0..(NBlocks - 1) : Block(i)
-        \/ kind = "blk" /\ \E m \in BlockLo..BlockHi : PickInt(m)
-        \/ kind = "root" /\ \E k \in 0..MaxPow, w \in 0..2, sg \in BOOLEAN : PickPow(k, w, sg)
+\* the disjuncts of Next are named so that TLC's coverage reports them one by one
+Bytes == kind \in {"root", "bytes"} /\ \E x \in NextBytes : PrependByte(x)
+Blocks == kind = "root" /\ \E i \in 0..(NBlocks - 1) : Block(i)
+Ints == kind = "blk" /\ \E m \in BlockLo..BlockHi : PickInt(m)
+Pows == kind = "root" /\ \E k \in 0..MaxPow, w \in 0..2, sg \in BOOLEAN : PickPow(k, w, sg)
+Next == Bytes \/ Blocks \/ Ints \/ Pows
 Spec == Init /\ [][Next]_vars
 
 -----------------------------------------------------------------------------
